@@ -23,6 +23,7 @@ RULE = (
     'whose transit exceeds the window; distinct = SHA-1 of (jump table, sites, window, cut-off).'
 )
 RULE += ' Added in rounds 5-10: injected tables in 5 row orders, 4 kinds of row labels and permuted column orders; cut-offs 0, negative, 1e-9; windows 0 and negative.'
+RULE += ' Round 16: windows as large as the integer range (sys.maxsize, int64 max) for the directly constructed Collective.'
 RULE += ' Round 15: the reference window comes from an independent copy of the diffusing atoms; the whole system is asked for its attempt frequency first in half of the cases.'
 RULE += ' Round 14: 12 (600) strictly periodic hopping runs whose attempt period is an exact whole number of time steps: window = that number, pairs recomputed with it.'
 RULE += ' Round 12: a quarter of the cut-offs lie 1e-10..1e-7 A above or below one of the site-site distances.'
@@ -257,6 +258,12 @@ def run_unit(unit, rng, ctx):
                 coll_c = j.collective(max_dist=cutoff)
                 check_collective(coll_c, rows, sys_, coll_c.max_steps, cutoff, ctx, what + ' [Jumps.collective, first cut-off again]', wit)
             w2 = int(rng.integers(1, 51))
+            if unit['i'] % 6 == 5:
+                # "no limit" spelled as the largest integer: every pair of jumps is close enough in time
+                import sys as _sys
+
+                w2 = [_sys.maxsize, int(np.iinfo(np.int64).max), 2**31 - 1, 10**12][int(rng.integers(4))]
+                ctx.count('windows_as_large_as_the_integer_range')
             c2 = pick_cutoff(rng, dsite)
             coll2 = Collective(jumps=j, sites=tr.sites, lattice=tr.diff_trajectory.get_lattice(), max_steps=w2, max_dist=c2)
             a, b = check_collective(coll2, rows, sys_, w2, c2, ctx, what + f' [Collective(max_steps={w2})]', wit)
